@@ -105,6 +105,11 @@ func (w *setWorld) ctor(key string) (keyed.Routine, int) {
 		switch beh {
 		case 1:
 			err = fmt.Errorf("k-inst-%d-error", in.n)
+			if c.S.PlanP(150) && ctx.Err() == nil {
+				// an ordinary failure whose error value is the context.Canceled sentinel
+				c.S.Count("probe:canceled-sentinel-result")
+				err = context.Canceled
+			}
 		case 2:
 			err = nil
 		default:
